@@ -599,6 +599,17 @@ func init() {
 				{"A4-key", func(a *types.Attestation) { a.Key = "HostAnnouncemenu" }, false, "attestation key changed after signing"},
 				{"A4-pubkey", func(a *types.Attestation) { a.PublicKey = wl.keys[1].PublicKey() }, false, "attestation public key replaced"},
 				{"A4-sig", func(a *types.Attestation) { a.Signature[w.tape.Choose(64)] ^= 1 << w.tape.Choose(8) }, false, "attestation signature bit flipped"},
+				{"A4-key-value-boundary", func(a *types.Attestation) {
+					// the same bytes, divided differently between key and value
+					k := 1 + w.tape.Choose(len(a.Key)-1)
+					a.Value = append([]byte(a.Key[k:]), a.Value...)
+					a.Key = a.Key[:k]
+				}, false, "bytes moved from the end of the attestation key to the front of its value after signing"},
+				{"A4-value-key-boundary", func(a *types.Attestation) {
+					k := 1 + w.tape.Choose(len(a.Value)-1)
+					a.Key += string(a.Value[:k])
+					a.Value = a.Value[k:]
+				}, false, "bytes moved from the front of the attestation value to the end of its key after signing"},
 				{"A4-empty-key", func(a *types.Attestation) {
 					a.Key = ""
 					a.Signature = wl.keys[0].SignHash(sc.s.AttestationSigHash(*a))
